@@ -80,6 +80,27 @@ def _plainify(x):
         return repr(x)
 
 
+_PLAIN = (int, bool, str, float, type(None), bytes)
+
+
+def _concrete(x):
+    """Copy of a log value with anything still symbolic replaced by '<sym>' (never realises: that would fork paths)."""
+    t = type(x)
+    if t in _PLAIN:
+        return x if t is not bytes else x.decode('latin-1')
+    if t in (list, tuple):
+        return [_concrete(v) for v in x]
+    if t is dict:
+        return {str(k): _concrete(v) for k, v in x.items()}
+    return '<sym>'
+
+
+def _finish(rec):
+    with untraced():
+        for k in list(rec):
+            rec[k] = _concrete(rec[k])
+
+
 def run_path(body, args, corner=None):
     rec = {}
     LOG.append(rec)
@@ -90,16 +111,31 @@ def run_path(body, args, corner=None):
     except Exception as e:          # CrossHair's control-flow exceptions are BaseException: not caught
         with untraced():
             rec['exc'] = '%s: %s' % (type(e).__name__, str(e)[:300])
-        rec['args'] = _plainify(deep_realize(list(args)))
+        a = deep_realize(list(args))
+        _finish(rec)
+        rec['args'] = _plainify(a)
         FAILS.append(rec)
         raise
     if ok and TWIN and corner is not None and corner(*args):
         rec['twin'] = True
         ok = False
+    ok = bool(ok)
     if not ok:
-        rec['args'] = _plainify(deep_realize(list(args)))
+        a = deep_realize(list(args))
+        _finish(rec)
+        rec['args'] = _plainify(a)
         FAILS.append(rec)
-    return bool(ok)
+    else:
+        _finish(rec)
+    return ok
+
+
+def pick(x, lo, hi):
+    """Concrete int equal to the symbolic x in [lo, hi] (one fork per value; keeps later code free of symbolic indices)."""
+    for v in range(lo, hi + 1):
+        if x == v:
+            return v
+    raise AssertionError('pick: value outside [%d, %d]' % (lo, hi))
 
 
 def fail(rec, why, **kw):
@@ -114,7 +150,7 @@ def fail(rec, why, **kw):
 # Token-level input: a custom lexer that realises a symbolic list of kind indices lazily.
 
 def make_list_lexer(names, value_of=None):
-    """Lexer class (interface 2): the 'text' is a list of ints; token k has type names[ix[k] % len(names)].
+    """Lexer class (interface 2): the 'text' is a list of ints; token k has type names[sel(ix[k], len(names))].
     Realisation happens when the parser pulls the token, so rejected prefixes prune their subtree."""
     from lark.lexer import Lexer, Token
     K = len(names)
@@ -129,7 +165,7 @@ def make_list_lexer(names, value_of=None):
             ix = lexer_state.text
             k = 0
             while k < len(ix):
-                name = names[ix[k] % K]
+                name = names[sel(ix[k], K)]
                 CUR['kinds'].append(name)
                 val = value_of[name] if value_of else name.lower()
                 yield Token(name, val, start_pos=k, line=1, column=k + 1, end_line=1, end_column=k + 2, end_pos=k + 1)
@@ -138,10 +174,19 @@ def make_list_lexer(names, value_of=None):
     return ListLexer
 
 
+def sel(v, K):
+    """Concrete index in [0, K) chosen by the symbolic int v: v itself when 0 <= v < K-1, otherwise K-1. Explicit comparisons
+    (one cheap fork per value) are about twice as fast under CrossHair as indexing a list with a symbolic `v % K`."""
+    for j in range(K - 1):
+        if v == j:
+            return j
+    return K - 1
+
+
 def kinds_of(ix, names):
-    """Concrete kind names of an (already consumed) index list; realises."""
+    """Concrete kind names of a concrete index list."""
     K = len(names)
-    return [names[i % K] for i in ix]
+    return [names[i if 0 <= i < K - 1 else K - 1] for i in ix]
 
 
 def class_string(cs, reps, use_bytes=False):
@@ -150,7 +195,7 @@ def class_string(cs, reps, use_bytes=False):
     K = len(reps)
     out = []
     for k in range(len(cs)):
-        r = reps[cs[k] % K]
+        r = reps[sel(cs[k], K)]
         out.append(r[k % len(r)])
     s = ''.join(out)
     return s.encode('latin-1') if use_bytes else s
